@@ -6,7 +6,7 @@
 (* <<property id, predicate name>>.                                         *)
 (***************************************************************************)
 EXTENDS Naturals, Integers, Sequences, FiniteSets, SequencesExt,
-        FiniteSetsExt, Functions, TLC, Text, Vlq, SMap, Sem, Attr, Compose, Rope, RopeM, ReplReq, EncM, DecM, SplitM, ReplaceM, ConcatM, HashM, LeafM, CombineM, TreeM
+        FiniteSetsExt, Functions, TLC, Text, Vlq, SMap, Sem, Attr, Compose, Rope, RopeM, ReplReq, EncM, DecM, SplitM, ReplaceM, ConcatM, HashM, LeafM, CombineM, TreeM, TreeC
 
 NREG == 16
 EmptyHeap == [i \in 0..(NREG - 1) |-> Nil]
@@ -16,7 +16,9 @@ InitState == [heap |-> EmptyHeap, obs |-> NoObs,
               ref |-> NoObs,        \* register of a CachedSource -> register holding the wrapped tree
               cache |-> NoObs,      \* cache id -> {<<columns, final, "map" | "stream">>}
               eqs |-> NoObs,        \* <<a, b>> -> last answer of a == b
-              stored |-> NoObs]     \* <<cache object, key>> -> identity of the cached map
+              stored |-> NoObs,     \* <<cache object, key>> -> identity of the cached map
+              nb |-> 0,             \* trees built so far (identities of CachedSource nodes)
+              tc |-> NoObs]         \* TreeC: <<cache id, columns, final>> -> what that cache stores
 
 Put(f, k, v) == [x \in DOMAIN f \cup {k} |-> IF x = k THEN v ELSE f[x]]
 
@@ -60,10 +62,17 @@ ReportsStored(r) ==
 Forget(obs, reg) == [k \in {x \in DOMAIN obs : x[1] # reg} |-> obs[k]]
 ForgetEq(eqs, reg) == [k \in {x \in DOMAIN eqs : x[1] # reg /\ x[2] # reg} |-> eqs[k]]
 
+(* the cache-aware tree model follows a call: sequential records on trees    *)
+(* with a CachedSource somewhere, inside the models' domain                  *)
+TreeCApplies(r, st) ==
+  /\ r.op \in {"map", "stream"} /\ "tid" \notin DOMAIN r
+  /\ LET t == st.heap[r.r]
+     IN "cached" \in Kinds(t) /\ TreeCDomain(t) /\ SharedNamesAgreeInTree(t)
+
 NextState(r, st) ==
   CASE r.op = "begin" -> InitState
     [] r.op = "build" /\ Ok(r) ->
-         [st EXCEPT !.heap[r.dst] = Close(r.tree, st.heap),
+         [st EXCEPT !.heap[r.dst] = Close(Uniq(r.tree, <<st.nb>>), st.heap), !.nb = @ + 1,
                     !.obs = Forget(@, r.dst), !.eqs = ForgetEq(@, r.dst)]
     [] r.op = "clone" /\ Ok(r) ->
          [st EXCEPT !.heap[r.dst] = st.heap[r.src],
@@ -75,8 +84,8 @@ NextState(r, st) ==
                     !.obs = Forget(@, r.r), !.eqs = ForgetEq(@, r.r)]
     [] r.op = "add" /\ Ok(r) ->
          LET t == st.heap[r.r]
-             a == Close(r.tree, st.heap)
-         IN [st EXCEPT !.obs = Forget(@, r.r), !.eqs = ForgetEq(@, r.r), !.heap[r.r] =
+             a == Close(Uniq(r.tree, <<st.nb>>), st.heap)
+         IN [st EXCEPT !.nb = @ + 1, !.obs = Forget(@, r.r), !.eqs = ForgetEq(@, r.r), !.heap[r.r] =
                IF "adds" \in DOMAIN t
                  THEN [t EXCEPT !.adds = Append(@, a)]
                  ELSE [x \in DOMAIN t \cup {"adds"} |->
@@ -90,7 +99,11 @@ NextState(r, st) ==
                               IF x \in ToSet(r.cached) THEN r.pure ELSE @[x]]]
     [] r.op \in {"source", "map", "stream", "hash"} /\ Ok(r) ->
          [st EXCEPT !.obs = Put(@, ObsKey(r), r.out),
-                    !.cache = CacheAfter(@, r, st.heap[r.r])]
+                    !.cache = CacheAfter(@, r, st.heap[r.r]),
+                    !.tc = IF TreeCApplies(r, st)
+                             THEN (IF r.op = "stream" THEN StreamC(st.heap[r.r], r.columns, r.final, @).cs
+                                   ELSE MapC(st.heap[r.r], r.columns, @).cs)
+                             ELSE @]
     [] OTHER -> st
 
 -----------------------------------------------------------------------------
@@ -645,6 +658,7 @@ Checks(r, st) ==
               \cup (IF dom THEN {<<"C11", "announce_before_use">>} ELSE {})
               \cup (IF TreeOf(r, st).k \in {"orig", "raw"}
                       THEN {<<"DRIFT", "leaf_stream_follows_LeafM">>} ELSE {})
+              \cup (IF TreeCApplies(r, st) THEN {<<"DRIFT", "tree_stream_follows_TreeC">>} ELSE {})
               \cup (IF ModelledTree(TreeOf(r, st)) /\ TreeMDomain(TreeOf(r, st))
                          /\ SharedNamesAgreeInTree(TreeOf(r, st))
                       THEN {<<"DRIFT", "tree_stream_follows_TreeM">>} ELSE {})
@@ -662,6 +676,8 @@ Checks(r, st) ==
                                                   ELSE <<"C08", "stream_lines">>)}
                          ELSE {})
       [] r.op = "map" ->
+           (IF "tid" \notin DOMAIN r /\ TreeCDomain(TreeOf(r, st)) /\ SharedNamesAgreeInTree(TreeOf(r, st))
+              THEN {<<"DRIFT", "tree_map_follows_TreeC">>} ELSE {}) \cup
            LET dom == AsciiConsistent(TreeOf(r, st))
                seen == <<r.r, "stream", r.columns, FALSE>> \in DOMAIN st.obs
            IN (IF dom /\ r.out.map # <<>>
@@ -889,6 +905,19 @@ Holds(c, r, st) ==
                LET m == ReprOf(e, r.pieces)
                IN m.kind = "ok" => ("repr" \in DOMAIN o /\ o.repr.full = m.full /\ o.repr.ps = m.ps)
          IN same(r.a, r.out.a) /\ same(r.b, r.out.b)
+    [] c = <<"DRIFT", "tree_stream_follows_TreeC">> ->
+         LET model == StreamC(t, r.columns, r.final, st.tc).s
+             mine == StreamChunks(r.out.ev)
+         IN /\ model.kind = "ok"
+            /\ Len(model.chunks) = Len(mine)
+            /\ \A i \in 1..Len(mine) :
+                 /\ <<model.chunks[i].x, model.chunks[i].gl, model.chunks[i].gc>>
+                      = <<mine[i].x, mine[i].gl, mine[i].gc>>
+                 /\ Full(model.chunks[i].a) = Full(mine[i].a)
+            /\ model.end = r.out.end
+    [] c = <<"DRIFT", "tree_map_follows_TreeC">> ->
+         LET model == MapC(t, r.columns, st.tc)
+         IN model.ok /\ SegValsOfOptMapRaw(r.out.map) = SegValsOfOptMapRaw(model.m)
     [] c = <<"DRIFT", "tree_stream_follows_TreeM">> ->
          LET model == StreamV(t, r.columns, r.final)
              mine == StreamChunks(r.out.ev)
